@@ -108,7 +108,7 @@ func bindCode(c *lx.Conn, msgid int64, dn, pw string) int {
 	if err := c.Send(lx.Envelope(msgid, lx.BindReq(3, dn, pw), nil)); err != nil {
 		return -1
 	}
-	m, err := c.Recv(5 * time.Second)
+	m, err := recvPatient(c, 5*time.Second)
 	if err != nil || m.ID != msgid || m.Tag != lx.AppBindResp {
 		return -2
 	}
